@@ -6,7 +6,7 @@ statement on the raw bytes."""
 import itertools
 import os
 
-from vf.harness import use_world, outcome, freeze, sample, guarded
+from vf.harness import use_world, outcome, freeze, sample, guarded, add_histories, history_of
 from vf.simk.world import World
 
 ID = "C12"
@@ -271,18 +271,18 @@ def run(ctx):
     cases = build_cases(ctx.thorough)
     n = max(1, len(cases) // (ctx.ncpu * 4))
     chunks = [(ctx.seed, cases[i:i + n]) for i in range(0, len(cases), n)]
-    res = [r for ch in ctx.pmap(worker, chunks, chunk=1) for r in ch]
+    res = [r for ch in ctx.pmap_fresh(worker, chunks) for r in ch]
     viols, kinds = [], {}
-    for c, bad in zip(cases, res):
+    for _i, (c, bad) in enumerate(zip(cases, res)):
         kinds[c[0]] = kinds.get(c[0], 0) + 1
         for cause, msg in bad:
-            viols.append({"cause": cause, "msg": msg, "case": enc(c)})
+            viols.append({"cause": cause, "msg": msg, "case": enc(c), "_idx": _i})
     cov = {"evaluations": len(cases), "distinct_nontrivial": len({repr(c) for c in cases}),
            "rule": "one evaluation = one kernel-exposed byte layout (argv block x layout, environ block, link target x state x "
                    "cmdline, (comm, argv) pair x state) queried through the real method; distinct by construction",
            "per_dimension": kinds, "exhaustive": True, "samples": [enc(c) for c in sample(cases, 8)],
            "bounds": "argv <= %d items over %d values; environ <= %d entries over %d values" % (nmax_(ctx), len(ARGS), nmax_(ctx) + 1, len(ENVS))}
-    return {"coverage": cov, "violations": viols,
+    return {"coverage": cov, "violations": add_histories(viols, cases, n, enc),
             "assumptions": ["a single NUL-terminated argument containing a space is indistinguishable from an overwritten title: "
                             "the documented split is the expected answer",
                             "'=v' (empty NAME) may be reported or ignored"]}
@@ -295,5 +295,6 @@ def nmax_(ctx):
 def replay(ctx, case):
     w, p = mk_world(ctx.seed)
     use_world(w)
-    bad = guarded(run_case, dec(case), (w, p))
+    for c in history_of(case):
+        bad = guarded(run_case, dec(c), (w, p))
     return {"violated": bool(bad), "viols": bad}
